@@ -101,6 +101,17 @@ def latestBeforeTs (l : CLog) (ts : Int) : Res Int :=
   | none => .panic
   | some seg =>
     if idx = 0 ∧ ((Gen.Subscribe.tsLatestEmptyCheck && seg.isEmpty) ∨ ts < seg.firstTs) then .err "timestamp" else
+    if Gen.Subscribe.tsLatestExact then
+      -- `findLatestEntryByTimestamp`: the entry before the first one with a later timestamp
+      let n := seg.recs.length
+      let i := goSearch n fun i => match seg.recs[i]? with
+        | some r => Gen.Subscribe.tsLatestCmp.evalInt r.ts ts
+        | none => true
+      if i = 0 then .err "timestamp" else
+      match seg.recs[i - 1]? with
+      | some r => .ok r.offset
+      | none => .panic
+    else
     match findEntryByTs seg ts with
     | some r => if r.ts = ts then .ok r.offset else .ok (r.offset - 1)
     | none => .ok seg.lastOffset
